@@ -10,11 +10,11 @@ TV      harness `sec17 record` (seeded random keys, names, salts, intervals, ins
         -> Trace_Dnssec17 (judges, and writes the hash inputs it derives) -> harness `sec17 finish`
 
 Mutants (checks/mutants/C17), stage that catches each on the quick tier:
-  keytag-carry-dropped.diff     GEN keytag (keytag/value), GEN ds (ds/fields), TV keytag + ds events
-  ds-owner-not-lowercased.diff  GEN ds (ds/digest:*), TV ds events via finish
-  nsec3-iter-loop-le.diff       GEN nsec3 (nsec3/hashname), TV hashname/cover events via finish
-  cover-ignores-zone.diff       GEN cover (nsec3/cover:outzone:inside), TV cover events
-  inttobytes-no-padding.diff    GEN keylife stress loop (keylife/verify-rejects-*-key:ECDSA*, sign/import failures)
+  keytag-carry-dropped.diff     GEN keytag (keytag/value), GEN ds (ds/fields); the same keys from TV keytag / ds events
+  ds-owner-not-lowercased.diff  GEN ds (ds/digest:sha1|sha256|sha384); TV ds events through `finish`
+  nsec3-iter-loop-le.diff       GEN nsec3 (nsec3/hashname); TV hashname / cover events through `finish`
+  cover-ignores-zone.diff       GEN cover (nsec3/cover:outzone:inside, :outzone:equal-owner); TV cover events
+  inttobytes-no-padding.diff    GEN keylife, fresh-key round trips (keylife/import-fails:ECDSA*, keylife/verify-rejects-imported-key:ECDSA*)
 """
 import os, json
 import vp
@@ -103,7 +103,7 @@ def run(ctx):
     jobs = []
     for mode in ("keytag", "ds", "nsec3", "cover", "validity"):
         def job(mode=mode):
-            counts[mode] = gen(ctx, binp, "Gen_Dnssec17", {"Mode": '"%s"' % mode, "Iters": iters}, mode)
+            counts[mode] = gen(ctx, binp, "Gen_Dnssec17", {"Mode": '"%s"' % mode, "Iters": iters, "KSmall": 5 if ctx.quick else 8}, mode)
         jobs.append(job)
 
     def kljob():
@@ -113,7 +113,7 @@ def run(ctx):
     if ctx.quick:
         tv(ctx, binp, 1800, 2)
     else:
-        tv(ctx, binp, 6000, 8)
+        tv(ctx, binp, 18000, 12)
     ctx.notes["vectors"] = counts
     ctx.assumptions += [
         "hash functions are uninterpreted in the specification; their values come from Go's crypto/sha1, sha256, sha512 applied to the octets the specification fixes",
@@ -123,7 +123,7 @@ def run(ctx):
         "key life: the DNSKEY passed to NewPrivateKey/ReadPrivateKey is the one the text was exported from (documented requirement); generated keys are cached per run and algorithm except in the elliptic-curve stress loop",
         "names in recorded events are written in the library's presentation form (UnpackDomainName), fully qualified",
     ]
-    return ctx.finish(rule="vectors: keytag = flags x protocol x algorithm x every key over {00,ff} up to 5 octets + keys of 255/256/257/1024 octets; "
+    return ctx.finish(rule="vectors: keytag = flags x protocol x algorithm x every key over {00,ff} up to 5 (thorough: 8) octets + keys of 255/256/257/1024 octets; "
                       "ds = 5 owners x 4 case variants x 7 digest types x 4 keys; nsec3 = 5 names (4 case variants each) x salts 0/1/8/255 x iterations; "
                       "cover = 5^3 orderings x 7 zone/name pairs x owner-label case; validity = 11 instants x 2 epochs x 12^2 offsets; keylife = every behaviour "
                       "ending in a verification x 7 algorithm/size combinations + fresh-key round trips. events: seeded random. "
